@@ -386,7 +386,8 @@ func randColor(rng *gen.Rng) vaxis.Color {
 	}
 }
 
-var links = [][2]string{{"", ""}, {"", ""}, {"http://a", ""}, {"http://a", "id=1"}, {"http://b", "id=2"}, {"", "id=9"}}
+var links = [][2]string{{"", ""}, {"", ""}, {"http://a", ""}, {"http://a", "id=1"}, {"http://b", "id=2"}, {"", "id=9"},
+	{"http://d", "a;b"}, {"http://d", ";id=5"}, {"http://a", "id=1;"}} // F112b: ';' inside the parameter string
 
 func randStyle(rng *gen.Rng) vaxis.Style {
 	if rng.Chance(1, 4) {
